@@ -550,7 +550,8 @@ def reachable_objects(engine) -> dict[int, str]:
             continue
         mod = getattr(type(o), "__module__", "") or ""
         if mod.startswith("fuzzylite") and hasattr(o, "__dict__"):
-            seen[id(o)] = path
+            if vars(o):  # an object without attributes (Minimum(), General(), Very()) holds no state that could be shared
+                seen[id(o)] = path
             for k, x in vars(o).items():
                 if k == "_sim_fault":
                     continue
